@@ -562,3 +562,42 @@ Proof.
     try (now left); try (intros; discriminate).
   apply in_or_app. right. now left.
 Qed.
+
+(* time cannot advance past the deadline of an unfinished batch *)
+Lemma next_due_deadline c s b t' :
+  quiescent c s = true -> In b (batches s) -> b_done b = false -> NoDup (map b_id (batches s)) ->
+  match next_due s with None => true | Some d => t' <=? d end = true -> t' <= b_deadline b.
+Proof.
+  intros Q I D N H.
+  pose proof (quiescent_entered c s b Q I N) as EN.
+  assert (ST : b_started b = true).
+  { unfold quiescent in Q. rewrite forallb_forall in Q.
+    assert (FB : find_batch (b_id b) (batches s) = Some b).
+    { revert I N. generalize (batches s). induction l as [|b0 l IH]; simpl; [tauto|].
+      intros I N. inversion N as [|? ? N1 N2]; subst.
+      destruct (Nat.eqb (b_id b0) (b_id b)) eqn:E.
+      - destruct I as [I|I]; [now subst|]. apply Nat.eqb_eq in E. exfalso. apply N1. rewrite E. now apply in_map.
+      - destruct I as [I|I]; [subst; rewrite Nat.eqb_refl in E; discriminate|auto]. }
+    assert (C1 : In (IBatchStart (b_id b)) (candidates c s)).
+    { unfold candidates. repeat (apply in_or_app; right). apply in_flat_map. exists b. split; [exact I|simpl; tauto]. }
+    specialize (Q _ C1). simpl in Q. unfold do_batch_start in Q. rewrite FB in Q.
+    destruct (nth_error (b_ops b) (b_bumped b)) eqn:X; [discriminate|].
+    apply nth_error_None in X. unfold b_started. now apply Nat.leb_le. }
+  unfold next_due in H.
+  set (d1 := match loop s with LSleeping t => zmin_opt _ t | _ => _ end) in H.
+  assert (G : forall l acc, In b l ->
+              exists d, fold_left batch_deadlines l acc = Some d /\ d <= b_deadline b).
+  { induction l as [|b0 l IH]; intros acc Hin; [contradiction|]. simpl.
+    destruct Hin as [Hin|Hin].
+    - subst b0.
+      assert (M : forall l2 acc2, (exists d, acc2 = Some d /\ d <= b_deadline b) ->
+                    exists d, fold_left batch_deadlines l2 acc2 = Some d /\ d <= b_deadline b).
+      { induction l2 as [|b2 l2 IH2]; intros acc2 (d & E & Ld); simpl; [eauto|].
+        apply IH2. subst acc2. unfold batch_deadlines.
+        destruct (b_entered b2 && negb (b_returned b2)); destruct (b_started b2 && negb (b_done b2)); simpl;
+          eexists; (split; [reflexivity|lia]). }
+      apply M. unfold batch_deadlines. rewrite ST, D, EN. simpl.
+      destruct (negb (b_returned b)); destruct acc; simpl; eexists; (split; [reflexivity|lia]).
+    - now apply IH. }
+  destruct (G (batches s) d1 I) as (d & E1 & E2). rewrite E1 in H. apply Z.leb_le in H. lia.
+Qed.
